@@ -417,7 +417,7 @@ def replay(ctx, obj):
 
 
 CHECK = core.Check(
-    'C13', sc.CLUSTER, ['Props/C13.v', 'Props/C13H.v'], translate=sc.translate, correspond=correspond, oracle=oracle, replay=replay,
+    'C13', sc.CLUSTER, ['Props/C13.v', 'Props/C13H.v', 'Props/C13E.v'], translate=sc.translate, correspond=correspond, oracle=oracle, replay=replay,
     regressions=regressions, deps=('lib',),
     rule='virtual clock (whole seconds); for each of 12 request kinds (IKE_SA_INIT, IKE_AUTH, CREATE_CHILD_SA new / '
          'rekey / rekey with PFS, INFORMATIONAL delete CHILD / delete IKE / DPD, IKE_SA rekey, and the retries after '
